@@ -2,6 +2,7 @@ import QmiModel.Lemmas.C01Progress
 import QmiModel.Lemmas.C01ProgressL
 import QmiModel.Lemmas.C01Measure
 import QmiModel.Lemmas.C01Own
+import QmiModel.Lemmas.C01Locked
 /-!
 # C01 — every RPC call completes exactly once: result, exception or delivery error
 
@@ -15,9 +16,13 @@ many calls and callers, all interleavings, stop/removal/connection-loss/serialis
   `aStop = false` (kept under their names of the first round).  Since the repairs 5177c53 (force_unlock on an unlocked object) and dc3d515 (serialisation failures)
   `Cfg.sound` *is* the configuration of the source: the harness probes the three bits on every run and reports a
   violation (not a known finding) if one of them is set again.
-* `client_stop_loses_request`, `client_stop_drops_queued_request` — the remaining hypothesis `aStop = false` cannot be
-  dropped: in every configuration a call issued while the caller's own context is being stopped can be lost
-  (known finding, replayed on the real code by the harness).
+* `client_stop_loses_request`, `client_stop_drops_queued_request` — for the plain system `Reach` (router without the
+  send/stop lock, i.e. the source before de03010) the hypothesis `aStop = false` cannot be dropped: a call issued while
+  the caller's own context is being stopped can be lost (replayed on the real code by the harness before the repair).
+* `nothing_lost_locked`, `calls_complete_locked`, `no_loss_locked` — the **current source** (de03010: `send_message`
+  and `stop` of the router share a lock) is the sub-system `ReachL`; there `lost = []` always and EVERY call completes,
+  whenever and however either context is stopped.  `client_stop_histories_excluded_by_lock`: the two loss histories are
+  not executions of `ReachL`.  The harness reads the lock structure from the AST on every run (cfg bit `sendLocked`).
 * `pinned_*_hangs` — historical: the same statement was false of `Cfg.pinned`, the configuration of the tree before
   those repairs; kept as kernel-checked witnesses that each `Cfg` bit matters (`sound_completes_those`).
 -/
@@ -127,6 +132,61 @@ theorem lost_only_when_client_stopped {s : State} (h : Reach cfg attr s) (hA : s
 theorem no_loss {s : State} (h : Reach Cfg.sound attr s) (r : ReqId) (hr : r ∈ s.issued) (hn : s.result r = none) :
     r ∈ s.lost ∨ Good attr s r :=
   reach_cinvl attr h r hr hn
+
+/-! ### The repaired router (send/stop lock): the sub-system `ReachL`
+
+`MessageRouter.send_message` holds `_send_lock` from its checks until the message is queued in the socket-manager
+thread and `MessageRouter.stop` queues `close_all` / marks the router inactive under the same lock.  In the model this
+is `ReachL`: `stopA` only fires while `checked = []`.  The harness reads the lock structure from the AST of the current
+source on every run and explores the model accordingly; without the lock the plain `Reach` theorems (with `lost`) apply. -/
+
+/-- with the send/stop lock nothing is ever dropped by the caller's own stopping context (every configuration) -/
+theorem nothing_lost_locked {s : State} (h : ReachL cfg attr s) : s.lost = [] :=
+  (linv_reach cfg attr h).lost
+
+/-- **a call never waits for ever — full statement for the current source** (all loss paths repaired, send/stop lock):
+    whenever the system has come to rest, EVERY issued call has its outcome — also when the caller's own context is
+    stopped at any point. -/
+theorem calls_complete_locked {s : State} (h : ReachL Cfg.sound attr s) (hq : Quiescent Cfg.sound attr s) (r : ReqId)
+    (hr : r ∈ s.issued) : ∃ o, s.result r = some o := by
+  rcases calls_complete attr h.toReach hq r hr with h1 | h1
+  · exact h1
+  · rw [nothing_lost_locked _ attr h] at h1; cases h1
+
+/-- no loss, current source: an issued call without outcome always has a live carrier -/
+theorem no_loss_locked {s : State} (h : ReachL Cfg.sound attr s) (r : ReqId) (hr : r ∈ s.issued) (hn : s.result r = none) :
+    Good attr s r := by
+  rcases no_loss attr h.toReach r hr hn with h1 | h1
+  · rw [nothing_lost_locked _ attr h] at h1; cases h1
+  · exact h1
+
+/-- executable form of `ReachL` for traces: `run` that refuses `stopA` while a sender is between check and hand-over -/
+def runL (s : State) : List Act → Option State
+  | [] => some s
+  | a :: as =>
+    if a = .stopA ∧ s.checked ≠ [] then none else
+    match step cfg attr s a with
+    | some s' => runL s' as
+    | none => none
+
+theorem runL_reach {s t : State} (hs : ReachL cfg attr s) : ∀ {as : List Act}, runL cfg attr s as = some t → ReachL cfg attr t := by
+  intro as
+  induction as generalizing s with
+  | nil => intro h; simp [runL] at h; subst h; exact hs
+  | cons a as ih =>
+    intro h
+    simp only [runL] at h
+    split at h
+    · cases h
+    · next hc =>
+      split at h
+      · next s' hst =>
+        refine ih (ReachL.step hs hst ?_) h
+        intro ha
+        by_cases hk : s.checked = []
+        · exact hk
+        · exact absurd ⟨ha, hk⟩ hc
+      · cases h
 
 /-- **a target object that still exists keeps serving**: the worker never dies (repaired configuration) -/
 theorem object_survives_partial {s : State} (h : Reach Cfg.sound attr s) : s.phase ≠ .crashed :=
@@ -269,6 +329,15 @@ theorem client_stop_loses_request :
 theorem client_stop_drops_queued_request :
     Hang Cfg.sound attrRemOk true :=
   hang_of_hangB _ _ (as := [.issue 0, .send 0, .stopA, .enq 0, .loopA, .loopA, .loopExitA, .eofB]) (by decide)
+
+/-- the two loss histories above need `stopA` while a sender is between check and hand-over: with the send/stop lock
+    (`runL`) they are not executions of the system any more; the lock makes the sender finish first -/
+theorem client_stop_histories_excluded_by_lock :
+    runL Cfg.sound attrRemOk init [.issue 0, .send 0, .stopA] = none ∧
+    (match runL Cfg.sound attrRemOk init [.issue 0, .send 0, .enq 0, .stopA, .loopA, .loopA, .loopA, .loopExitA] with
+     | some s => s.result 0 == some .deliveryErr && s.lost.isEmpty && s.aSock == .down
+     | none => false) = true := by
+  decide
 
 /-- the same histories complete in the repaired configuration (the witnesses really depend on the defects) -/
 theorem sound_completes_those :
